@@ -283,6 +283,8 @@ func runC01(c *Ctx) {
 		c01RR(c, "rr", g)
 		c01Codec(c, g)
 	}
+	// the value codecs of EDNS0 options and SVCB parameters: Lean model vs edns.go / svcb.go, well-formed and damaged
+	optStream(c, c.Scale(400, 8000))
 	// unknown / private-range types as RFC 3597
 	for i := 0; i < c.Scale(500, 10000); i++ {
 		typ := uint16(r.Intn(65536))
